@@ -315,7 +315,7 @@ func (a *Analysis) ExprNullable(p *Prod, e *Expr) bool {
 	case "lit":
 		return e.Text == ""
 	case "ref":
-		return false
+		return e.Typ == "EOF" // matching EOF consumes nothing: it can be matched again and again
 	case "neg":
 		return false
 	case "look":
@@ -372,6 +372,9 @@ func (a *Analysis) bugIn(p *Prod, e *Expr) string {
 	switch e.Op {
 	case "alt":
 		for _, k := range e.Kids {
+			if k.Op == "ref" && k.Typ == "EOF" {
+				continue // the library's "accepted but did not progress" check exempts EOF
+			}
 			if a.ExprNullable(p, k) {
 				return "nullable alternative"
 			}
